@@ -25,10 +25,104 @@ fn run_one(arith: &str, sched: &str, h: &SparseMatrix, limit: usize, llrs: &[f64
     out.join(" ")
 }
 
+/// A random forest with every check of weight >= 2: checks join variables of distinct components (union-find).
+fn gen_forest(rng: &mut Rng, n: usize) -> SparseMatrix {
+    let mut comp: Vec<usize> = (0..n).collect();
+    fn find(c: &mut Vec<usize>, x: usize) -> usize {
+        let mut r = x;
+        while c[r] != r {
+            r = c[r];
+        }
+        c[x] = r;
+        r
+    }
+    let mut rows: Vec<Vec<usize>> = Vec::new();
+    let want = rng.range(1, n - 1);
+    for _ in 0..want {
+        let w = rng.range(2, 4);
+        let mut picked: Vec<usize> = Vec::new();
+        for _ in 0..(4 * n) {
+            if picked.len() == w {
+                break;
+            }
+            let v = rng.below(n);
+            let rv = find(&mut comp, v);
+            if picked.iter().all(|&u| find(&mut comp, u) != rv) {
+                picked.push(v);
+            }
+        }
+        if picked.len() < 2 {
+            break;
+        }
+        let r0 = find(&mut comp, picked[0]);
+        for &u in &picked[1..] {
+            let ru = find(&mut comp, u);
+            comp[ru] = r0;
+        }
+        rows.push(picked);
+    }
+    let mut h = SparseMatrix::new(rows.len(), n);
+    for (j, r) in rows.iter().enumerate() {
+        for &c in r {
+            h.insert(j, c);
+        }
+    }
+    h
+}
+
+/// C03 exactness clause: the four exact sum-product arithmetics x both schedules on cycle-free matrices.
+const EXACT: [&str; 8] = ["Phif64", "Phif32", "Tanhf64", "Tanhf32", "HLPhif64", "HLPhif32", "HLTanhf64", "HLTanhf32"];
+
+fn run_tree(name: &str, h: &SparseMatrix, limit: usize, llrs: &[f64]) -> String {
+    use ldpc_toolbox::decoder::factory::{DecoderFactory, DecoderImplementation};
+    use std::str::FromStr;
+    let Ok(imp) = <DecoderImplementation as FromStr>::from_str(name) else { return "badname".into() };
+    let mut d = imp.build_decoder(h.clone());
+    run_history(&mut d, &[(limit, llrs.to_vec())]).join(" ")
+}
+
+fn tree_cases(ctx: &mut Ctx) {
+    let mut rng = Rng::new(ctx.seed, 33);
+    let n = ctx.scale(400, 6000);
+    for k in 0..n {
+        let cols = rng.range(3, 12);
+        let h = gen_forest(&mut rng, cols);
+        if h.num_rows() == 0 {
+            continue;
+        }
+        // channel LLRs: a random sign pattern (often far from a codeword), magnitudes 0.25 .. 6
+        let llrs: Vec<f64> = (0..cols)
+            .map(|_| {
+                let m = 0.25 + 5.75 * rng.f64_unit();
+                if rng.chance(1, 2) { -m } else { m }
+            })
+            .collect();
+        let limit = *rng.pick(&[1usize, 2, 3, 4, 6, 8, 12, 20]);
+        let name = EXACT[k % EXACT.len()];
+        let o = run_tree(name, &h, limit, &llrs);
+        let input = format!("c03 tree {} {} {}", name, sm(&h), fmt_call(limit, &llrs));
+        let iters = o.rsplit(':').next().and_then(|s| s.parse::<usize>().ok()).unwrap_or(0);
+        let tags = [
+            "forest",
+            if name.starts_with("HL") { "schedule-layered" } else { "schedule-flooding" },
+            if name.ends_with("32") { "f32" } else { "f64" },
+            if o.starts_with("S:") { "result-success" } else if o.starts_with("F:") { "result-failure" } else { "result-panic" },
+            if iters == 0 { "iterations-0" } else if iters == 1 { "iterations-1" } else { "iterations-2+" },
+        ];
+        ctx.emit(&input, &o, iters >= 1, &tags);
+    }
+}
+
 pub fn run(ctx: &mut Ctx, replay: Option<&[String]>) {
     if let Some(lines) = replay {
         for line in lines {
             let t: Vec<&str> = line.split_whitespace().take_while(|t| *t != "=>").collect();
+            if t.len() == 6 && t[0] == "c03" && t[1] == "tree" {
+                let (Some(h), Some((limit, llrs))) = (parse_sm(t[3], t[4]), parse_call(t[5])) else { continue };
+                let o = run_tree(t[2], &h, limit, &llrs);
+                ctx.emit(&t.join(" "), &o, true, &["replay"]);
+                continue;
+            }
             if t.len() != 6 || t[0] != "c03" {
                 continue;
             }
@@ -70,4 +164,5 @@ pub fn run(ctx: &mut Ctx, replay: Option<&[String]>) {
         // non-trivial: at least one full iteration was executed (a trace exists)
         ctx.emit(&input, &o, iters >= 1, &tags);
     }
+    tree_cases(ctx);
 }
